@@ -405,3 +405,34 @@ Theorem envelope_of_selection_widens_bounds :
   apply_rule t [[97]; [98]; [99]; [100]] true None None = t /\
   blookup (apply_rule_envelope_of_selection t [[97]; [98]; [99]; [100]] true None None) [97] = Some (0, 1000).
 Proof. exact split_rule_bounds_witness. Qed.
+
+(** Part 7: update_from_calculator (the copy of the optimiser's best point back
+    into the likelihood function, in the [finally:] of optimise),
+    Model/UpdateFromCalc.v: the stored value is the calculator's value, or the
+    bound that value overshot by no more than the tolerance of numpy.allclose —
+    never the other bound *)
+From CG3 Require Import Model.UpdateFromCalc Proofs.UpdateFromCalcProofs.
+
+Theorem update_snaps_to_the_overshot_bound : forall close lo hi out v,
+  update_one close false lo hi out = UOk v ->
+  v = out \/
+  (exists l, truthy lo = Some l /\ v = l /\ out < l /\ close out l = true) \/
+  (exists u, truthy hi = Some u /\ v = u /\ u < out /\ close out u = true).
+Proof. exact update_snaps_lemma. Qed.
+
+Theorem update_value_within_bounds : forall close lo hi out v,
+  update_one close false lo hi out = UOk v ->
+  (forall l u, truthy lo = Some l -> truthy hi = Some u -> l <= u) ->
+  (forall l, truthy lo = Some l -> l <= v) /\ (forall u, truthy hi = Some u -> v <= u).
+Proof. exact update_within_bounds_lemma. Qed.
+
+Theorem update_moves_within_tolerance : forall close tol lo hi out v,
+  (forall a b, close a b = true -> Z.abs (a - b) <= tol) -> 0 <= tol ->
+  update_one close false lo hi out = UOk v -> Z.abs (v - out) <= tol.
+Proof. exact update_moves_within_tolerance_lemma. Qed.
+
+(** the swapped assignment stores the far bound (witness) *)
+Theorem swapped_upper_branch_stores_lower_bound :
+  update_one allclose false (Some 500000000000) (Some 3000000000000) 3000000000001 = UOk 3000000000000 /\
+  update_one_swapped allclose false (Some 500000000000) (Some 3000000000000) 3000000000001 = UOk 500000000000.
+Proof. exact swapped_branch_witness. Qed.
